@@ -110,6 +110,108 @@ def compare_outputs(ctx, prop_sig, p, runs, res, extra=None):
     return dis
 
 
+def batch_special_values(ctx):
+    """'every set of input values': elementwise programs (no reductions / contractions / casts, whose NaN
+    conventions are a matter of the C library) on inputs containing NaN, +-inf and -0.0: NaN positions and all other
+    values as NumPy's"""
+    n = 500 if ctx.thorough else 90
+    cfg = programs.Config(families=("arith", "compare", "where", "math", "remap", "index", "like"),
+                          dtypes=("float64", "float32", "int32", "int64"), allow_zero_size=False)
+    nprng = np.random.default_rng(ctx.seed * 7 + 19)
+    progs, jobs = [], []
+    for i in range(n):
+        p = programs.generate(ctx.seed + 1900, i, cfg)
+        runs = []
+        for _ in range(2):
+            inp = p.make_inputs(nprng)
+            for k, v in inp.items():
+                if v.dtype.kind == "f" and v.size:
+                    v = v.copy()
+                    flat = v.reshape(-1)
+                    m = nprng.random(flat.size)
+                    flat[m < 0.18] = np.nan
+                    flat[(m >= 0.18) & (m < 0.26)] = np.inf
+                    flat[(m >= 0.26) & (m < 0.32)] = -np.inf
+                    flat[(m >= 0.32) & (m < 0.38)] = -0.0
+                    inp[k] = v
+            runs.append(inp)
+        progs.append((p, runs))
+        jobs.append(cexec.Job(tag=f"sv{i}", expr=p.expr(), runs=runs, prep=_prep_dedup))
+    res = cexec.run_jobs(ctx, jobs)
+    dis = 0
+    ops: dict[str, int] = {}
+    with np.errstate(all="ignore"):
+        for (p, runs), r in zip(progs, res):
+            for o in set(p.ops):
+                ops[o] = ops.get(o, 0) + 1
+            dis += compare_outputs(ctx, "loopy-special-values", p, runs, r, extra={"stream": "special-values"})
+    ctx.note_batch("special-values(NaN,inf,-0.0)", n, dis, exhaustive=False, constructor_counts=ops)
+
+
+def batch_special_value_table(ctx):
+    """every elementwise API function x every pair of value classes (NaN, +inf, -inf, -0.0, 0.0, finite +-) in
+    both operand positions, also against scalars: one kernel per function, the inputs enumerate all pairs"""
+    import pytato as pt
+    vals = np.array([np.nan, np.inf, -np.inf, -0.0, 0.0, 1.5, -2.0, 0.25])
+    xa, ya = [a.reshape(-1).copy() for a in np.meshgrid(vals, vals, indexing="ij")]
+    x = pt.make_placeholder("x", xa.shape, np.float64)
+    y = pt.make_placeholder("y", ya.shape, np.float64)
+    fns = {"maximum": pt.maximum, "minimum": pt.minimum, "add": lambda a, b: a + b, "sub": lambda a, b: a - b,
+           "mul": lambda a, b: a * b, "truediv": lambda a, b: a / b, "less": pt.less, "less_equal": pt.less_equal,
+           "greater": pt.greater, "greater_equal": pt.greater_equal, "equal": pt.equal, "not_equal": pt.not_equal,
+           "where-cond": lambda a, b: pt.where(a, b, 7.0), "where-less": lambda a, b: pt.where(pt.less(a, b), a, b),
+           "logical_and": pt.logical_and, "logical_or": pt.logical_or, "arctan2": pt.arctan2}
+    unary = {"abs": pt.abs, "sqrt": pt.sqrt, "exp": pt.exp, "log": pt.log, "sin": pt.sin, "cos": pt.cos, "tanh": pt.tanh,
+             "isnan": pt.isnan, "neg": lambda a: -a, "square": lambda a: a * a, "pow2": lambda a: a ** 2,
+             "pow0": lambda a: a ** 0, "logical_not": pt.logical_not, "arctan": pt.arctan}
+    jobs, meta = [], []
+    inp = {"x": xa, "y": ya}
+    for nm, f in fns.items():
+        for variant, e in (("xy", lambda: f(x, y)), ("yx", lambda: f(y, x)), ("x-scalar", lambda: f(x, 0.25)),
+                           ("scalar-x", lambda: f(0.25, x)), ("x-nan", lambda: f(x, float("nan"))),
+                           ("inf-x", lambda: f(float("inf"), x))):
+            try:
+                node = e()
+            except Exception:   # noqa: BLE001
+                continue
+            if not isinstance(node, pt.Array):
+                continue
+            jobs.append(cexec.Job(tag=f"svt:{nm}:{variant}", expr=pt.make_dict_of_named_arrays({"o": node}), runs=[inp],
+                                  prep=_prep_dedup))
+            meta.append((nm, variant, node))
+    for nm, f in unary.items():
+        try:
+            node = f(x)
+        except Exception:   # noqa: BLE001
+            continue
+        jobs.append(cexec.Job(tag=f"svt:{nm}", expr=pt.make_dict_of_named_arrays({"o": node}), runs=[inp], prep=_prep_dedup))
+        meta.append((nm, "x", node))
+    res = cexec.run_jobs(ctx, jobs)
+    dis = 0
+    with np.errstate(all="ignore"):
+        for (nm, variant, node), r in zip(meta, res):
+            if r.error:
+                if not str(r.stage).startswith("c-"):
+                    dis += 1
+                    ctx.violation(f"loopy-special-values:{r.stage}:{r.error_class}:{_short(r.error)}",
+                                  f"{nm} ({variant}): {r.stage} failed: {r.error[:300]}", {"function": nm, "variant": variant})
+                continue
+            ref = evaluate(pt.make_dict_of_named_arrays({"o": node}), inp)["o"]
+            got = r.outputs[0].get("o")
+            if got is None or not close(got, ref):
+                bad = [] if got is None else [i for i in range(ref.size)
+                                              if not close(np.asarray(got).reshape(-1)[i], ref.reshape(-1)[i])]
+                dis += 1
+                ctx.violation(f"loopy-special-values:table:{nm}",
+                              f"{nm} ({variant}) differs from NumPy at value pairs "
+                              f"{[(float(xa[i]), float(ya[i])) for i in bad[:4]]}: generated code gives "
+                              f"{[float(np.asarray(got).reshape(-1)[i]) for i in bad[:4]] if got is not None else None}, "
+                              f"NumPy {[float(ref.reshape(-1)[i]) for i in bad[:4]]}",
+                              {"function": nm, "variant": variant, "positions": bad[:20]})
+    ctx.note_batch("special-value-table(function x value-class pairs)", len(jobs), dis, exhaustive=True,
+                   value_classes=[str(v) for v in vals])
+
+
 def run(ctx: common.Ctx):
     ctx.assumptions += [
         "loopy's pipeline, its C target, gcc and libm execute the generated kernel (OpenCL absent); executed, not verified",
@@ -173,6 +275,8 @@ def run(ctx: common.Ctx):
     ctx.note_batch("output-order-independence", m, dis2, exhaustive=False, text_compared=n_text)
     if c01_kernel is not None:
         c01_kernel.run_kernel_model(ctx, progs, results)
+    batch_special_values(ctx)
+    batch_special_value_table(ctx)
     ctx.broken = sorted(set(ctx.broken))[:50]
 
 
